@@ -585,7 +585,17 @@ def c14_jobs(tier):
                 (3, 6, 1, 2, 16, 14, 2, 72, 1040), (4, 8, 1, 2, 26, 28, 2, 0, 2228259), (3, 5, 0, 1, 14, 26, 0, 0, 33686018)]
     for (k, n, e, off, tl, ql, shift, tsym, qsym) in tpl:
         jobs.append({"pkgdir": "align/pals/filter", "func": "VerifC14_Template", "sched": "det", "fsmodel": True,
-                     "params": {"k": k, "n": n, "e": e, "offset": off, "tlen": tl, "qlen": ql, "shift": shift, "tsym": tsym, "qsym": qsym},
+                     "params": {"k": k, "n": n, "e": e, "offset": off, "tlen": tl, "qlen": ql, "shift": shift, "tsym": tsym, "qsym": qsym, "cut": 99, "shift2": 0, "tpl": 0},
+                     "timeout_s": 900 if tier == "quick" else 3000})
+    # low-complexity templates (homopolymer runs, short periods): matches on many diagonals at once, many live tubes
+    # (k, n, e, offset, |T|, |Q|, shift, qsym, template)
+    low = [(4, 8, 1, 2, 8, 16, 4, 1040, 1), (4, 8, 1, 2, 12, 24, 1, 2064, 1), (2, 4, 1, 3, 5, 9, 10, 34, 2), (3, 6, 1, 4, 8, 14, 0, 130, 2),
+           (3, 6, 1, 2, 10, 20, 1, 258, 3), (2, 4, 1, 2, 8, 18, 0, 66, 3), (4, 8, 1, 2, 16, 30, 0, 16448, 1)]
+    if tier != "quick":
+        low += [(3, 6, 2, 3, 12, 26, 2, 4112, 1), (4, 8, 0, 3, 14, 28, 0, 260, 3), (3, 5, 1, 2, 9, 22, 3, 1028, 2), (2, 5, 1, 4, 10, 24, 0, 8256, 1)]
+    for (k, n, e, off, tl, ql, shift, qsym, t) in low:
+        jobs.append({"pkgdir": "align/pals/filter", "func": "VerifC14_Template", "sched": "det", "fsmodel": True,
+                     "params": {"k": k, "n": n, "e": e, "offset": off, "tlen": tl, "qlen": ql, "shift": shift, "tsym": 0, "qsym": qsym, "cut": 99, "shift2": 0, "tpl": t},
                      "timeout_s": 900 if tier == "quick" else 3000})
     return jobs
 
